@@ -110,6 +110,13 @@ CLAIMED["C11"] = (
     "socket module is a registering fake (strong references), open-socket set compared after every event (spec->code)",
     "Exhaustive model checking of socket ownership for all histories within the bounds plus conformance of the real classes on "
     "every enumerated and on thousands of simulated histories.", "3 C11", "")
+CLAIMED["C12"] = (
+    "TLA+ spec specs/http/Idle.tla (virtual tyme, one service() per tick, client activity per tick: nothing / bytes of an unfinished "
+    "request / a complete persistent request): TLC exhaustive MC of the action properties ClosedOnlyIfIdle/IdleGetsClosed/"
+    "TrafficKeepsOpen/PersistentStays for T in {1,2,3}; every behaviour executed on real http.Server (plain and TLS servant) and "
+    "http.BareServer driven by a Tymist over scripted sockets, the tick at which the peer socket is closed compared (spec->code)",
+    "Exhaustive model checking of the idle rule for every activity timing over 7 (quick) / 9 ticks and three tymeouts plus "
+    "conformance of the three real server flavours on every such behaviour at three exact time scales.", "3 C12", "")
 NA = {
  "C28": "pure value-fidelity of json/cbor2/msgpack + dataclass reflection: no state/transition structure for a TLA+ model to decide (DESIGN.md section 4)",
 }
